@@ -20,6 +20,16 @@ pub fn set_validate_tx(on: bool) {
     TX_VIOLATIONS.with(|v| v.borrow_mut().clear());
     TX_CHAINS.with(|v| v.borrow_mut().clear());
 }
+/// Content validator for IEEE 802.15.4 frames (6LoWPAN reassembly and decompression need
+/// state and the independent codec of the C20 check, so the C10 check registers it):
+/// Ok(Some) = a whole datagram was reconstructed and is valid, Ok(None) = no verdict yet.
+pub type LowpanTxHook = fn(&crate::indep::validate::TxContext, &[u8]) -> Result<Option<crate::indep::validate::FrameSummary>, crate::indep::validate::Violation>;
+thread_local! {
+    static LOWPAN_TX_HOOK: std::cell::Cell<Option<LowpanTxHook>> = const { std::cell::Cell::new(None) };
+}
+pub fn set_lowpan_tx_hook(h: Option<LowpanTxHook>) {
+    LOWPAN_TX_HOOK.with(|c| c.set(h));
+}
 pub fn take_tx_violations() -> Vec<crate::indep::validate::Violation> {
     TX_VIOLATIONS.with(|v| std::mem::take(&mut *v.borrow_mut()))
 }
@@ -58,6 +68,7 @@ impl SimDevice {
                 caps: crate::indep::validate::TxCaps::all(),
                 own_addrs: None,
                 raw_protocols: vec![253, 254],
+                lowpan_ctxs: None,
             })
         } else {
             None
@@ -92,9 +103,19 @@ impl SimDevice {
         }
     }
     /// Tell the validator which addresses the interface owns right now.
+    /// The source-ownership rule is judged against every address the interface has held so
+    /// far: a socket the application bound to an address keeps sending from it after the
+    /// network (SLAAC expiry, DHCP) took the address away, which is the application's choice
+    /// of source, not the stack's.
     pub fn set_own_addrs(&mut self, addrs: Vec<crate::indep::Ip>) {
         if let Some(cx) = self.vctx.as_mut() {
-            cx.own_addrs = Some(addrs);
+            let mut all = cx.own_addrs.take().unwrap_or_default();
+            for a in addrs {
+                if !all.contains(&a) {
+                    all.push(a);
+                }
+            }
+            cx.own_addrs = Some(all);
         }
     }
     pub fn take_tx(&mut self) -> Vec<Vec<u8>> {
@@ -128,7 +149,17 @@ impl<'a> phy::TxToken for SimTx<'a> {
         let mut buf = vec![0xA5u8; len];
         let r = f(&mut buf);
         if let Some(cx) = self.vctx {
-            match crate::indep::validate::validate_frame(cx, &buf) {
+            let mut res = crate::indep::validate::validate_frame(cx, &buf);
+            if res.is_ok() && matches!(cx.medium, crate::indep::validate::MediumKind::Ieee802154) {
+                if let Some(h) = LOWPAN_TX_HOOK.with(|c| c.get()) {
+                    match h(cx, &buf) {
+                        Ok(Some(s)) => TX_CHAINS.with(|c| *c.borrow_mut().entry(s.chain).or_insert(0) += 1),
+                        Ok(None) => {}
+                        Err(e) => res = Err(e),
+                    }
+                }
+            }
+            match res {
                 Ok(s) => TX_CHAINS.with(|c| *c.borrow_mut().entry(s.chain).or_insert(0) += 1),
                 Err((k, m)) => TX_VIOLATIONS.with(|v| {
                     let mut v = v.borrow_mut();
@@ -251,6 +282,12 @@ impl Node {
         if self.dev.vctx.is_some() {
             let addrs = self.iface.ip_addrs().iter().map(|c| crate::indep::Ip::from_smol(c.address())).collect();
             self.dev.set_own_addrs(addrs);
+            if self.dev.medium == Medium::Ieee802154 {
+                let ctxs: Vec<[u8; 8]> = self.iface.sixlowpan_address_context().iter().map(|c| c.0).collect();
+                if let Some(cx) = self.dev.vctx.as_mut() {
+                    cx.lowpan_ctxs = Some(ctxs);
+                }
+            }
         }
     }
     pub fn poll(&mut self, now: Instant, budget: Option<usize>) -> Vec<Vec<u8>> {
